@@ -2,6 +2,9 @@ import sys
 pid=sys.argv[1].lower()
 import json
 rnd = sys.argv[2] if len(sys.argv) > 2 else '2'
+mut = 'mut%s' % rnd
+used = json.load(open('/verif/tools/used_sites.json')).get(pid.upper(), []) if rnd == '3' else []
+extra = ('\n\nThis is in fact the THIRD round. The following sites (file :: enclosing function) have ALREADY been used for this property in earlier rounds; choose DIFFERENT functions and different kinds of mistakes:\n' + '\n'.join('  - ' + u for u in used) + '\nAlso consider: code shared with other features (helpers in domain.py, sampler_base.py, user_fun.py, points.py, model.py), 3-D domains (sphere, TrimeshPolyhedron), products of domains with external parameters, adaptive samplers driven by conditions, function sets and their sums, DeepONet/FNO variants, data loaders with unusual sizes, anything stateful across calls.\n') if rnd == '3' else ''
 for l in open('/verif/properties.jsonl'):
     p=json.loads(l)
     if p['id'].lower()==pid:
@@ -18,10 +21,11 @@ Here is a semantic property of the library that is supposed to hold:
 
 YOUR TASK: produce 3 DIFFERENT source changes (mutants) to the library, each of which BREAKS this property while still importing fine and passing the existing test suite (no new failures vs. the clean baseline). This is a SECOND round: the most obvious single-line mutation sites (a flipped sign or comparison in the central function of the property, a dropped flag in a __call__, an off-by-one in the main loop) have already been used, so look for LESS-TRAVELLED code paths: rarely used arguments and optional features, boundary variants, nested compositions, interactions of two features, state carried between calls, helper functions several modules away from the anchor files, and edge values (n=1, empty, size-one dimensions, equal/tied values). Prefer realistic mistakes a developer could make (off-by-one, wrong axis, swapped operands, stale cache, wrong row pairing, forgotten case, sign, wrong variable reused, tolerance, wrong order of operations), in DIFFERENT functions/files for the 3 mutants. Prefer changes that need something specific to manifest — an unusual input (non-axis-aligned / shifted / parameter-dependent shape, particular count n or number of parameter rows, particular combination of operations), a multi-step sequence of calls, or two cooperating sites — rather than ones that any ordinary use exposes at once. Each mutant must be a small patch (a few lines).
 
-For each mutant k in 1..3 create the directory /tmp/mut2_{pid}/k/ containing:
+For each mutant k in 1..3 create the directory /tmp/{mut}_{pid}/k/ containing:
   - patch.diff : output of `git -C /tmp/wt_{pid} diff` for that mutant alone (must apply to the clean worktree with `git -C /tmp/wt_{pid} apply patch.diff`);
   - demo.py : a small stand-alone program (imports torch/torchphysics only) that exits with status 0 on the clean tree and with a non-zero status (assert failure) on the mutated tree, demonstrating the property violation through public API behaviour; run it as `PYTHONPATH=/tmp/wt_{pid}/src /venv/bin/python demo.py`. It must be deterministic (seed torch if it samples) and must check the property itself (e.g. by an independent computation), not internal identifiers;
   - notes.md : which property it breaks, what it needs in order to manifest, and the exact commands you ran with their results (test suite with the mutant: pass/fail summary; demo with and without the mutant).
 Verify all of that yourself: with the patch applied run the full test suite and the demo; with the patch reverted (`git -C /tmp/wt_{pid} checkout -- .`) run the demo again. Keep only mutants for which everything holds; if one fails the existing tests, replace it by another. Work on one mutant at a time and ALWAYS leave the worktree clean (git checkout -- .) before starting the next one and at the end.
 
+{extra}
 Final answer: a short list of the mutants you kept (directory, one-line description, what it needs to manifest).""")
